@@ -41,7 +41,8 @@ def _replay_step(location: ReportLocation, step: Step, eventmgr: EventManager) -
         else:
             raise ValueError("Unknown step log %s" % log)
 
-    eventmgr.fire(events.StepEndEvent(location, step.description, thread_id, event_time=step.end_time))
+    if step.end_time:
+        eventmgr.fire(events.StepEndEvent(location, step.description, thread_id, event_time=step.end_time))
 
 
 def _replay_steps_events(location: ReportLocation, steps: Iterable[Step], eventmgr: EventManager) -> None:
